@@ -432,8 +432,10 @@ theorem valid_fid_found_under_concurrency (es : List FidLife.FEv) (s : FidLife.F
     (h : FidLife.FS.init.run es = some s) (o : Nat) (ho : o < s.n) (ht : (s.obj o).tbl = true)
     (hs : s.snap = none) : s.pool (s.obj o).num = some o ∧ (s.obj o).destroyed = false := by
   have h0 := (FidLife.inv_run _ _ es FidLife.inv_init h).objs o ho
-  obtain ⟨a, _, c⟩ := h0.tblOpen ht hs
-  exact ⟨a, c⟩
+  refine ⟨h0.tblOpen ht hs, ?_⟩
+  cases hd : (s.obj o).destroyed with
+  | false => rfl
+  | true => have := (h0.dead (Or.inr (Or.inr hd))).2; rw [ht] at this; cases this
 
 /-- …and the table never holds anything but a fid object that was created for that number. -/
 theorem table_entry_is_its_number (es : List FidLife.FEv) (s : FidLife.FS)
